@@ -198,5 +198,45 @@ def check(ctx):
                        f"columns in another order than the file, values are stored under the wrong names",
                        chain=[f"names = {norm(c.args[0])}", f"values = {norm(c.args[1])}"],
                        clause="each value staying under its own name, for any requested order")
+    fj = repo.fn(f"{LOD}.from_json")
+    dels = []
+    for n in body_nodes(fj.node):
+        if isinstance(n, ast.Delete) and isinstance(n.targets[0], ast.Subscript):
+            dels.append((n, n.targets[0].value, n.targets[0].slice))
+        if isinstance(n, ast.Call) and isinstance(n.func, ast.Attribute) and n.func.attr == "pop" and n.args:
+            dels.append((n, n.func.value, n.args[0]))
+    for n, rec, key in dels:
+        if not isinstance(key, ast.Name):
+            continue
+        loops = []
+        p_ = fj.module.parent.get(n)
+        while p_ is not None and p_ is not fj.node:
+            if isinstance(p_, ast.For):
+                loops.append(p_)
+            p_ = fj.module.parent.get(p_)
+        kl = [l for l in loops if norm(l.target) == key.id]
+        if not kl:
+            continue
+        src = kl[0].iter
+        names = {x.id for x in ast.walk(src) if isinstance(x, ast.Name)}
+        exprs = [src]
+        if isinstance(src, ast.Name):
+            exprs = [d.value for d in defs_reaching(fj, src.id, n) if d.value is not None]
+            names = set().union(*[{x.id for x in ast.walk(e) if isinstance(x, ast.Name)} for e in exprs]) if exprs else set()
+        ok = norm(rec) in names
+        ctx.ob("TNT-order", fj, f"keys removed from {norm(rec)}: {', '.join(norm(e) for e in exprs)[:80]}", n, ok,
+               "the keys to drop are computed from the record they are dropped from" if ok else
+               f"the set of keys to drop is not computed from the record itself ({', '.join(norm(e) for e in exprs)[:80]}): records "
+               f"with other keys than the one it was computed from keep keys that were not requested",
+               clause="reading with a key restriction equals reading everything and then selecting")
+    for q in (f"{DF}.read_csv", f"{DF}.read_parquet"):
+        fn = repo.fn(q)
+        fa = [c for _, c in calls_in(fn) if isinstance(c.func, ast.Attribute) and c.func.attr == "from_arrow"]
+        rets = [n for n in body_nodes(fn.node) if isinstance(n, ast.Return)]
+        ok = bool(fa) and bool(rets) and all(r.value is fa[0] for r in rets) and kw(fa[0], "dtypes") is not None and norm(kw(fa[0], "dtypes")) == "dtypes"
+        ctx.ob("FWD-live", fn, "return cls.from_arrow(table, dtypes=dtypes)", rets[0] if rets else fn.node, ok,
+               "the dtype map is applied to the final table (all renaming happens before) and the result is returned as is" if ok else
+               "the frame is modified after from_arrow(dtypes=...) has applied the dtype map (e.g. columns are renamed afterwards), so the "
+               "map was looked up under other names and is silently ignored", clause="casting them")
     ctx.count("restriction/typing parameters of readers", n_live, 14)
     ctx.count("positional labelling sites", n_sites, 2)
